@@ -3,5 +3,5 @@ CONSTANTS
   Srv = {"s1", "s2", "s3"}
   Ins = {"i1", "i2"}
   MaxVal = 3
-  InnerWD = FALSE
+  InnerWD = TRUE
 CHECK_DEADLOCK FALSE
